@@ -302,7 +302,10 @@ def interpolate_bad_channels(
         if imult.size == 0:
             data[i, :] = 0
             continue
-        data[i, :] = gp.matmul(weights[imult], data[imult, :])
+        interp = gp.matmul(weights[imult], data[imult, :])
+        if data.dtype.kind in "iu":  # integer samples: round, a truncation leaves the range of the neighbours by one bit
+            interp = gp.rint(interp)
+        data[i, :] = interp
     # from viewephys.gui import viewephys
     # f = viewephys(data.T, fs=1/30, h=h, title='interp2')
     return data
